@@ -303,7 +303,60 @@ func structFacts(e *env, p func(format string, args ...any)) {
 		// some writer merges the metadata unfiltered: the model must do the same
 		excluded = nil
 	}
+	// (8) duplexHTTPCall.makeRequest replaces the body of a 101 response (the connection itself,
+	// which the context does not govern) before the response is published
+	bodyReplaced := false
+	if fd, ok := e.funcs["duplexHTTPCall.makeRequest"]; ok {
+		replacedAt, publishedAt := token.NoPos, token.NoPos
+		ast.Inspect(fd.Body, func(n ast.Node) bool {
+			switch x := n.(type) {
+			case *ast.IfStmt:
+				mentions := false
+				ast.Inspect(x.Cond, func(k ast.Node) bool {
+					if se, ok := k.(*ast.SelectorExpr); ok && se.Sel.Name == "StatusSwitchingProtocols" {
+						mentions = true
+					}
+					return true
+				})
+				if !mentions {
+					return true
+				}
+				closes, replaces := false, false
+				ast.Inspect(x.Body, func(k ast.Node) bool {
+					switch y := k.(type) {
+					case *ast.CallExpr:
+						if se, ok := y.Fun.(*ast.SelectorExpr); ok && se.Sel.Name == "Close" {
+							closes = true
+						}
+					case *ast.AssignStmt:
+						if len(y.Lhs) == 1 && len(y.Rhs) == 1 {
+							l, lok := y.Lhs[0].(*ast.SelectorExpr)
+							rr, rok := y.Rhs[0].(*ast.SelectorExpr)
+							if lok && rok && l.Sel.Name == "Body" && rr.Sel.Name == "NoBody" {
+								replaces = true
+							}
+						}
+					}
+					return true
+				})
+				if closes && replaces && replacedAt == token.NoPos {
+					replacedAt = x.Pos()
+				}
+			case *ast.AssignStmt:
+				if len(x.Lhs) == 1 {
+					if se, ok := x.Lhs[0].(*ast.SelectorExpr); ok && se.Sel.Name == "response" && publishedAt == token.NoPos {
+						publishedAt = x.Pos()
+					}
+				}
+			}
+			return true
+		})
+		bodyReplaced = replacedAt != token.NoPos && publishedAt != token.NoPos && replacedAt < publishedAt
+	} else {
+		e.fail("duplexHTTPCall.makeRequest not found")
+	}
 	p("\n(* ---- further structural facts (from the AST) ---- *)\n")
+	p("Definition duplex_101_body_replaced : bool := %s. (* makeRequest: `if ... StatusSwitchingProtocols { Body.Close(); Body = http.NoBody }` before d.response is assigned *)\n", b(bodyReplaced))
 	p("Definition metadata_excluded_headers : list bytes := (* mergeMetadataHeaders header.go; writers going through it: %d of 3 *)\n  [", viaFilter)
 	for i, k := range excluded {
 		if i > 0 {
